@@ -120,10 +120,14 @@ def tfdfUnpack (j : Json) : R (UPy Tfdf) := do
 
 def framePack (j : Json) : R (UPy (Bytes × Frame)) := do
   let f0 ← getFrame j
-  let f := if ← getFlag j "set_len" then f0.setFrameLenInHeader else f0
+  let setLen ← getFlag j "set_len"
   let tr ← getFlag j "truncated"
   let ft ← getFt j "frame_type"
-  pure (do let b ← f.pack tr ft; pure (b, f))
+  pure (do
+    -- `set_frame_len_in_header()` can refuse (`ValueError`, frame too long for the 16-bit field)
+    let f ← if setLen then f0.setFrameLenInHeader else pure f0
+    let b ← f.pack tr ft
+    pure (b, f))
 
 def frameUnpack (j : Json) : R (UPy Frame) := do
   pure (Frame.unpack (← getHex j "raw") (← getFtReq j "frame_type") (← getProps (← field j "props")))
